@@ -341,7 +341,7 @@ theorem nameShapes_spec (o : Nat → Nat) : ∀ (l : List Shape) (n : Nat),
       · obtain ⟨t, ht, h⟩ := h3 s' hs'
         exact ⟨t, by simp [nameShapes, ht], h⟩
 
-theorem foldl_bottom (startY : Int) : ∀ (l : List Shape) (m : Int),
+theorem foldl_bottom (_startY : Int) : ∀ (l : List Shape) (m : Int),
     m ≤ l.foldl (fun m s => if s.y + s.h > m then s.y + s.h else m) m ∧
     ∀ s ∈ l, s.y + s.h ≤ l.foldl (fun m s => if s.y + s.h > m then s.y + s.h else m) m := by
   intro l
